@@ -216,6 +216,44 @@ def rule_r6(ctx):
         raise AnalysisBroken("no store retry_active = true found in req.c")
 
 
+def rule_r7(ctx):
+    r = ctx.rule("C12.R7", "T2", "an answered request is no longer tied to its connection: either req0_recv_cb takes the context off the "
+                 "pipe's list on every path on which it accepts the reply, or req0_pipe_close acts (ECONNRESET, reset, latch, "
+                 "re-queue) only on contexts that still hold a request -- otherwise, with resending disabled, losing the "
+                 "connection after the reply arrived discards the reply and fails the receive", floor=1)
+    prog = ctx.prog
+    f = prog.need("req0_recv_cb", "reqrep0/req.c")
+    g = prog.need("req0_pipe_close", "reqrep0/req.c")
+    # (A) the accept path of the receive callback: from the retirement of the id to the exit
+    retire = [c for c in f.calls("nni_id_remove") if c.node["args"] and last_field(f.expand(c.node["args"][0])) == "req0_sock.requests"]
+    G.need_sites(retire, "nni_id_remove(&s->requests, id)", f)
+    unlink = G.positions([c for c in f.calls(("nni_list_node_remove", "nni_list_remove")) if any(
+        a is not None and (last_field(f.expand(a)) or "").endswith(("req0_ctx.pipe_node", "req0_pipe.contexts")) for a in c.node["args"])])
+    a_ok = bool(unlink) and all((f.exit, 0) not in f.reach((c.b, c.i + 1), blocked=lambda b, i, e: (b, i) in unlink) or
+                                f.dominated_by((c.b, c.i), blocked=lambda b, i, e: (b, i) in unlink) for c in retire)
+    # (B) the actions of pipe_close on a context are under a test that it still has a request
+    acts = [c for c in g.calls(("req0_ctx_reset", "nni_aio_finish_error"))] + G.stores(g, "conn_reset", "nonnull")
+    G.need_sites(acts, "actions of req0_pipe_close on a context", g)
+    has_req = {}
+    for bid, k, atom, val in G.edge_facts(g):
+        if val and any(m.get("k") == "mem" and m.get("f") in ("req_msg", "request_id") for m in walk(atom)):
+            has_req[bid] = k
+    for b, k in G.nz_edges(g, lambda m: m.get("k") == "mem" and m.get("f") in ("req_msg", "request_id")).items():
+        has_req.setdefault(b, k)
+    b_ok = bool(has_req) and all(G.dominated(g, (t.b, t.i), has_req) for t in acts)
+    if a_ok:
+        r.ob(f, "the accepted reply takes the context off its pipe")
+        r.ob(g, "(pipe loss cannot find an answered context)")
+    elif b_ok:
+        r.ob(g, "pipe loss acts only on contexts that still hold a request")
+        r.ob(f, "(the context may stay on the pipe's list)")
+    else:
+        ctx.fail(r, g, "pipe loss acts on an answered context", g.line,
+                 "req0_recv_cb leaves a context whose reply it accepted on p->contexts, and req0_pipe_close resets / fails every "
+                 "context it finds there when resending is disabled, without looking whether a request is still outstanding: a "
+                 "reply that arrived before the connection was lost is discarded and the receive fails with NNG_ECONNRESET")
+
+
 def run(ctx):
     ctx.guard(rule_r4)
     ctx.guard(rule_r1)
@@ -227,3 +265,4 @@ def run(ctx):
         if rr.id == "C14.R4":
             rr.id = "C12.R5"
     ctx.guard(rule_r6)
+    ctx.guard(rule_r7)
